@@ -19,19 +19,22 @@
 (***************************************************************************)
 EXTENDS DataModel
 
-TKeys(tags) == {tags[i][1] : i \in DOMAIN tags}
-TTypeOf(tags, k) == tags[CHOOSE i \in DOMAIN tags : tags[i][1] = k][2]
+\* the external name of a tag is its name under the aliaser in force (C11): that is the property read and written
+TKeys(ctx, tags) == {Ali(ctx, tags[i][1]) : i \in DOMAIN tags}
+TIdx(ctx, tags, k) == CHOOSE i \in DOMAIN tags : Ali(ctx, tags[i][1]) = k
+TTypeOf(ctx, tags, k) == tags[TIdx(ctx, tags, k)][2]
+TName(ctx, tags, k) == tags[TIdx(ctx, tags, k)][1]
 TVal(tag, v) == [k |-> "tagged", tag |-> tag, v |-> v]
 
 \* ---- Layer R
 TaggedR(ctx, tags, d) ==
   IF d.k # "obj" THEN Bad(Err("type:object"))
   ELSE LET keys == Keys(d.o) IN
-       IF Cardinality(keys) = 1 /\ keys \subseteq TKeys(tags)
+       IF Cardinality(keys) = 1 /\ keys \subseteq TKeys(ctx, tags)
        THEN LET key == CHOOSE x \in keys : TRUE
-                r   == RD(ctx, TTypeOf(tags, key), <<>>, Get(d.o, key)) IN
+                r   == RD(ctx, TTypeOf(ctx, tags, key), <<>>, Get(d.o, key)) IN
             IF IsUnspec(r) THEN Unspecified
-            ELSE IF r.ok THEN Ok(TVal(key, r.v)) ELSE BadX(Under(key, r.e), Under(key, r.x))
+            ELSE IF r.ok THEN Ok(TVal(TName(ctx, tags, key), r.v)) ELSE BadX(Under(key, r.e), Under(key, r.x))
        ELSE Bad({<< <<>>, "ANY" >>})          \* rejected; which violations are listed is Layer M's business
 
 \* ---- Layer M: [kind : "ok" | "verr" | "exc"]
@@ -39,10 +42,10 @@ TaggedM(ctx, tags, d, dev) ==
   IF d.k # "obj" THEN [kind |-> "verr", r |-> Bad(Err("type:object"))]
   ELSE LET keys    == Keys(d.o)
            n       == Cardinality(keys)
-           known   == keys \cap TKeys(tags)
-           res(key)  == RD(ctx, TTypeOf(tags, key), <<>>, Get(d.o, key))
+           known   == keys \cap TKeys(ctx, tags)
+           res(key)  == RD(ctx, TTypeOf(ctx, tags, key), <<>>, Get(d.o, key))
            own     == (IF n < 1 THEN Err("minProperties") ELSE {}) \cup (IF n > 1 THEN Err("maxProperties") ELSE {})
-           unexp   == IF ctx.O.addl THEN {} ELSE UNION {Under(key, Err("unexpected")) : key \in keys \ TKeys(tags)}
+           unexp   == IF ctx.O.addl THEN {} ELSE UNION {Under(key, Err("unexpected")) : key \in keys \ TKeys(ctx, tags)}
            \* under fall_back_on_default a failing tag falls back to its default, Undefined: it is simply not given
            ferr    == IF ctx.O.fbd THEN {} ELSE UNION {IF res(key).ok THEN {} ELSE Under(key, res(key).e) : key \in known}
            ferrx   == IF ctx.O.fbd THEN {} ELSE UNION {Under(key, XOf(res(key))) : key \in known}
@@ -52,10 +55,11 @@ TaggedM(ctx, tags, d, dev) ==
           ELSE IF \E key \in known : IsUnspec(res(key)) THEN [kind |-> "ok", r |-> Unspecified]
           \* the constructor receives the deserialized known properties
           ELSE IF Cardinality(given) = 1
-               THEN LET key == CHOOSE x \in given : TRUE IN [kind |-> "ok", r |-> Ok(TVal(key, res(key).v))]
+               THEN LET key == CHOOSE x \in given : TRUE IN [kind |-> "ok", r |-> Ok(TVal(TName(ctx, tags, key), res(key).v))]
           ELSE IF "ctorvalueerror" \in dev THEN [kind |-> "exc", r |-> Bad({})]
           ELSE [kind |-> "verr", r |-> Bad({<< <<>>, "ANY" >>})]
 
-\* serialization: the one defined tag
-TaggedSer(ctx, tags, v, SerOp(_, _, _)) == DObj(<< <<v.tag, SerOp(ctx, TTypeOf(tags, v.tag), v.v)>> >>)
+\* serialization: the one defined tag, under its external name
+TaggedSer(ctx, tags, v, SerOp(_, _, _)) ==
+  LET T == tags[CHOOSE i \in DOMAIN tags : tags[i][1] = v.tag][2] IN DObj(<< <<Ali(ctx, v.tag), SerOp(ctx, T, v.v)>> >>)
 =============================================================================
